@@ -196,6 +196,15 @@ def main():
         except Exception as e:
             open(os.path.join(a.out, "Sites.v"), "w").write("(* GENERATED: site extraction failed: %r *)\n" % (e,))
             status["Sites"] = {"ok": False, "errors": ["site extraction crashed: %r" % (e,)]}
+    if want("sites"):
+        import flow as flow_mod
+        try:
+            flows, ferrs = flow_mod.extract(sites_mod.MODS)
+            flow_mod.emit(flows, ferrs, os.path.join(a.out, "Flow.v"))
+            status["Flow"] = {"ok": not ferrs, "errors": ferrs, "n_edges": sum(len(v) for v in flows.values())}
+        except Exception as e:
+            open(os.path.join(a.out, "Flow.v"), "w").write("(* GENERATED: flow extraction failed: %r *)\n" % (e,))
+            status["Flow"] = {"ok": False, "errors": ["flow extraction crashed: %r" % (e,)]}
     # template instantiation: proofs that are stated once and checked against both builds
     tdir = os.path.join(os.path.dirname(HERE), "coq", "templates")
     if os.path.isdir(tdir):
